@@ -272,6 +272,7 @@ func main() {
 	emitCose(out, facts)
 	emitWebauthn(out, facts)
 	emitTpmAndroid(out, facts)
+	emitAsn1(out, facts)
 	emitEffects(out, facts)
 	b, _ := json.MarshalIndent(facts, "", " ")
 	if err := os.WriteFile(filepath.Join(out, "facts.json"), b, 0o644); err != nil {
